@@ -84,7 +84,7 @@ fn clip_group(
     apply(clip, transform, &mut clip_pixmap);
 
     let mut paint = tiny_skia::PixmapPaint::default();
-    paint.blend_mode = tiny_skia::BlendMode::Xor;
+    paint.blend_mode = tiny_skia::BlendMode::DestinationOut;
     pixmap.draw_pixmap(
         0,
         0,
